@@ -4,6 +4,10 @@ VERIF = os.path.abspath(os.path.join(os.path.dirname(__file__), "..", ".."))
 HOOK_COMMITS = ["926b3d3"]
 TLC_TECH = "TLA+ model checking (TLC) + trace validation of the real code against the specification"
 CLAIMS = {
+ "C02": dict(
+   text="Values.tla (TLC) enumerates boundary encodings of every SNMP value type and boundary OID names; each is carried at first/middle/last position of replies to get/get_many/getnext/getbulk over v1, v2c and v3 (plain, auth, DES, AES) on the real sockets, together with seeded random values over the full ranges (i64, u32, u64, octets, arcs < 2^32, REAL). TraceSession.tla decodes the logged reply octets with the TLA+ BER/SNMP codec and requires the Python result to equal PyValue(Denote(varbind)) and the key to equal OidToText(name).",
+   note="Rounding of decimal REALs and >53-bit mantissas is delegated to CPython float/fractions (uninterpreted in the spec). Replies are built by an untrusted reference encoder whose every octet is re-decoded by TLC.",
+   ref="DESIGN.md 5 C02", technique="TLC-generated value corpus + TLC trace validation with the TLA+ BER codec as value oracle"),
  "C04": dict(
    text="Session.tla is model-checked by TLC (DeliverOnlyCurrent, SkipKeepsWaiting, UndecodableEndsCall, LaterMatchDelivered) over all interleavings of sends, receive-loop iterations and injections of the curated fault alphabet; every completed behaviour within the bound is replayed on the real raw sockets of each version/security level and the recorded trace (all octets both ways) is judged by TraceSession.tla, which decodes the datagrams itself and computes each call's required outcome from the ids actually on the wire.",
    note="Bounded: <=2-3 requests, <=2 queued datagrams, <=2-4 injections per behaviour; loopback UDP assumed order-preserving; HMAC/ciphers interpreted by reference implementations.",
